@@ -491,13 +491,15 @@ def generic_worker(item):
 
 
 # ----------------------------------------------------------------------------- input spaces (labelled)
-def random_super_input(rng, no, ns, nf, ordered, rootsyn_p=0.0, consistent_p=0.8):
+def random_super_input(rng, no, ns, nf, ordered, rootsyn_p=0.0, consistent_p=0.8, variants=True):
     if rng.random() < 0.5:
-        d = clade_family_input(rng, no, ns, nf, ordered)       # families planted on clades (gains below the root)
+        d = clade_family_input(rng, no, ns, nf, ordered, variants=False)       # families planted on clades (gains below the root)
     else:
-        d = D.random_plain_input(rng, no, ns)
+        d = D.random_plain_input(rng, no, ns, variants=False)
         fams = "abcdef"[:nf]
         d["leafsyn"] = D.random_syntenies(rng, sorted(d["leafmap"]), fams, ordered, consistent_p)
+    if rng.random() < 0.2:
+        d["synstr"] = True        # leaf syntenies handed over as strings
     if ordered and rng.random() < rootsyn_p:
         used = sorted(set(g for s in d["leafsyn"].values() for g in s))
         from engine.oracles.trees import OTree
@@ -508,13 +510,13 @@ def random_super_input(rng, no, ns, nf, ordered, rootsyn_p=0.0, consistent_p=0.8
             if rng.random() < 0.4:
                 # the prescribed root is a common SUPERsequence of the leaves: it may hold a family that no leaf carries
                 d["rootsyn"].insert(rng.randrange(len(d["rootsyn"]) + 1), "x")
-    return d
+    return D.presentation_variants(d, rng) if variants else d
 
 
-def clade_family_input(rng, no, ns, nf, ordered=False):
+def clade_family_input(rng, no, ns, nf, ordered=False, variants=True):
     """Families planted on clades: each family picks an internal object node as its gain node and is carried by leaves on both sides of it
     (so gains happen below the root as often as at the root, which independent per-leaf sampling almost never produces)."""
-    d = D.random_plain_input(rng, no, ns)
+    d = D.random_plain_input(rng, no, ns, variants=False)
     from engine.oracles.trees import OTree
     O = OTree(H.totuple(d["ot"]), "o")
     fams = [chr(ord("a") + i) for i in range(nf)]
@@ -539,7 +541,7 @@ def clade_family_input(rng, no, ns, nf, ordered=False):
         d["leafsyn"] = {l: [f for f in order if f in v] for l, v in syn.items()}
     else:
         d["leafsyn"] = {l: sorted(v) for l, v in syn.items()}
-    return d
+    return D.presentation_variants(d, rng) if variants else d
 
 
 def simulated_inputs(rng, n, no_max, ns_max, nf, ordered, min_leaves=3):
@@ -657,7 +659,7 @@ def random_poly_tuple(rng, leaves, max_arity=3, npoly=1):
 
 
 def random_poly_input(rng, no, ns, nf, ordered, poly_object=True, poly_species=False, max_arity=3):
-    d = random_super_input(rng, no, ns, nf, ordered)
+    d = random_super_input(rng, no, ns, nf, ordered, variants=False)
     if rng.random() < 0.5:
         d["oprefix"], d["sprefix"] = "O", "S"     # ancestors already called O<k> / S<k>, like trees labelled by an earlier run
     ol = sorted(d["leafmap"])
@@ -666,7 +668,7 @@ def random_poly_input(rng, no, ns, nf, ordered, poly_object=True, poly_species=F
         d["ot"] = random_poly_tuple(rng, ol, max_arity)
     if poly_species and ns >= 3:
         d["st"] = random_poly_tuple(rng, sl, max_arity)
-    return d
+    return D.presentation_variants(d, rng)
 
 
 # ----------------------------------------------------------------------------- F-COHERENCE witnesses
